@@ -342,7 +342,7 @@ prop(
     "duplicates are seen too. Long-lived part: the same cases with traffic, a pause of 5.2-7 s (quick; 5-65 s thorough) and traffic again, "
     "for anything the transport does on a timer.",
     [dict(test="TestC15", shards=16, checks_quick=500, checks_thorough=6000, shrinktime="10s", gomaxprocs=16, timeout_quick=600),
-     dict(test="TestC15LongLived", shards_quick=4, shards_thorough=16, checks_quick=2, checks_thorough=6, shrinktime="60s", gomaxprocs=16, timeout_quick=600)],
+     dict(test="TestC15LongLived", shards_quick=4, shards_thorough=16, checks_quick=2, checks_thorough=6, shrinktime="15s", gomaxprocs=16, timeout_quick=600)],
     level_text="Generated schedules of harness-owned actions against sequence-number oracles; interleavings inside the units' own goroutines "
                "are sampled by the Go scheduler under several GOMAXPROCS values, not enumerated.",
     level_note="Trusted: the harness consumers/feeder; cmd/hidi/manager.go itself needs evdev nodes and is represented by the same library calls "
